@@ -175,6 +175,9 @@ def rule_flatten(ctx):
                 if a == T.mkcmp('is', INS, T.CONST_NONE):
                     if (insert is None) != pol:
                         feas = False
+                elif a == INS:                     # truthiness test of the option itself: None and 0 are both falsy
+                    if bool(insert) != pol:
+                        feas = False
                 elif T.contains(a, INS) and a[0] != 'cmp':
                     r = int_eval(a, atoms)
                     if r is not None and bool(r) != pol:
